@@ -188,31 +188,56 @@ SelfReflected(hs, s) == /\ hs[s].st = "done" /\ hs[s].peer = SessOwner[s]
 DataMax    == 1024
 SealedSize == DataMax + 4 + 16     \* dataMaxSize + dataLenSize + aeadSizeOverhead = 1044
 
-RECURSIVE Frames(_, _)
-Frames(off, n) == IF n = 0 THEN <<>>
-                  ELSE LET k == Min(n, DataMax) IN <<[off |-> off, len |-> k]>> \o Frames(off + k, n - k)
+\* the frames Write(n) seals when `off` bytes have been sealed before and sendNonce = nonce.  w = how many of the
+\* frame's 1044 sealed bytes reached the wire (all of them unless the underlying write failed, see WriteFaultOp)
+RECURSIVE Frames(_, _, _)
+Frames(off, n, nonce) == IF n = 0 THEN <<>>
+                         ELSE LET k == Min(n, DataMax) IN
+                              <<[off |-> off, len |-> k, nonce |-> nonce, w |-> SealedSize]>> \o Frames(off + k, n - k, nonce + 1)
+NumFrames(n) == (n + DataMax - 1) \div DataMax
 
 Seg(i)  == [k |-> "f", i |-> i, a |-> 0, b |-> SealedSize, fl |-> {}]
 Foreign == [k |-> "x", i |-> 0, a |-> 0, b |-> SealedSize, fl |-> {}]
 SegLen(g) == g.b - g.a
 
-\* sent    frames sealed so far (frame i was sealed with nonce i-1)      total   bytes written
+\* sent    frames sealed so far, each with the nonce it was sealed with   total   bytes sealed
+\* sn      sendNonce                                                      lossy   a fault lost bytes of the stream
+\* rfaults Reads that failed because the underlying read did
 \* wire    unread segments                                                closed  writer closed the pipe
 \* rn      recvNonce = number of frames opened                            rb      recvBuffer as a range
 \* dl      delivered ranges, adjacent ones merged                         errs    Reads that returned an error
 \* nm      manipulations so far
-EmptyStream == [sent |-> <<>>, total |-> 0, wire |-> <<>>, closed |-> FALSE, rn |-> 0,
-                rb |-> [off |-> 0, len |-> 0], dl |-> <<>>, errs |-> 0, nm |-> 0]
+EmptyStream == [sent |-> <<>>, total |-> 0, sn |-> 0, wire |-> <<>>, closed |-> FALSE, rn |-> 0,
+                rb |-> [off |-> 0, len |-> 0], dl |-> <<>>, errs |-> 0, nm |-> 0, lossy |-> FALSE, rfaults |-> 0]
 
 RECURSIVE WireBytes(_)
 WireBytes(w) == IF w = <<>> THEN 0 ELSE SegLen(Head(w)) + WireBytes(Tail(w))
 
 \* --- sender ------------------------------------------------------------------------------------------
 WriteOp(s, n) ==
-  LET fs == Frames(s.total, n)  base == Len(s.sent) IN
-  [st  |-> [s EXCEPT !.sent = @ \o fs, !.total = @ + n,
+  LET fs == Frames(s.total, n, s.sn)  base == Len(s.sent) IN
+  [st  |-> [s EXCEPT !.sent = @ \o fs, !.total = @ + n, !.sn = @ + Len(fs),
                      !.wire = @ \o [j \in 1..Len(fs) |-> Seg(base + j)]],
    res |-> <<"ok", n, 0>>]
+
+(* FAULT OF THE UNDERLYING CONNECTION on the writer's side.  Write(n) seals its k-th frame and the underlying     *)
+(* conn.Write of those 1044 bytes returns a (transient) error although c of them reached the wire: c = 1044 all,   *)
+(* 0 < c < 1044 a prefix, c = 0 none.  Write returns (bytes of the frames before, error); the frames after the    *)
+(* k-th are never sealed.  The application KEEPS USING the connection.  The code seals, increments sendNonce and   *)
+(* only then writes (Seal; incrNonce; conn.Write), so the failed frame has consumed its nonce: nonces are never    *)
+(* reused, the frame is part of `sent` (its data are stream positions like any other's), and a receiver that       *)
+(* never gets all of its bytes can never get past it -- it runs into decrypt errors, it never skips silently.       *)
+(* reuse = TRUE is the tempting mistake (increment only after a successful write): the next frame is then sealed   *)
+(* with the same nonce (MC_Stream requires the counterexamples to NoNonceReuse and DeliveredIsPrefixOfSent).       *)
+WriteFaultOp(s, n, k, c, reuse) ==
+  LET fs   == SubSeq(Frames(s.total, n, s.sn), 1, k)
+      fs2  == [fs EXCEPT ![k].w = c]
+      base == Len(s.sent)
+      segs == [j \in 1..(k - 1) |-> Seg(base + j)] \o (IF c = 0 THEN <<>> ELSE <<[Seg(base + k) EXCEPT !.b = c]>>)
+  IN [st  |-> [s EXCEPT !.sent = @ \o fs2, !.total = fs[k].off + fs[k].len,
+                        !.sn = IF reuse THEN @ + k - 1 ELSE @ + k,
+                        !.wire = @ \o segs, !.lossy = (@ \/ c < SealedSize)],
+      res |-> <<"err", fs[k].off - s.total, 0>>]
 CloseOp(s) == [st |-> [s EXCEPT !.closed = TRUE], res |-> <<"ok", 0, 0>>]
 
 \* --- man in the middle (j, k: positions in the unread wire) ---------------------------------------------
@@ -228,6 +253,7 @@ Swap(s, j, k)       == Manip(s, [s.wire EXCEPT ![j] = s.wire[k], ![k] = s.wire[j
 CanCut(s, j, c)     == j \in 1..Len(s.wire) /\ c \in 1..(SegLen(s.wire[j]) - 1)
 CutTail(s, j, c)    == Manip(s, [s.wire EXCEPT ![j].b = s.wire[j].a + c])            \* keep the first c bytes
 CutHead(s, j, c)    == Manip(s, [s.wire EXCEPT ![j].a = s.wire[j].a + c])            \* lose the first c bytes
+Recorded(s)         == {i \in 1..Len(s.sent) : s.sent[i].w = SealedSize}               \* frames that were on the wire completely
 Replay(s, j, i)     == Manip(s, InsertAt(s.wire, j, Seg(i)))                         \* re-insert a recorded frame
 Inject(s, j)        == Manip(s, InsertAt(s.wire, j, Foreign))                        \* frame of the other direction / an older
                                                                                       \* session / noise (the history names which)
@@ -248,9 +274,9 @@ Norm(g) == IF Len(g) < 2 THEN g
                 THEN Norm(<<[x EXCEPT !.b = y.b, !.fl = x.fl \cup y.fl]>> \o SubSeq(g, 3, Len(g)))
                 ELSE <<x>> \o Norm(Tail(g))
 
-\* recvAead.Open(frame, recvNonce, sealedFrame): exactly the sealed bytes of the frame whose nonce is recvNonce
+\* recvAead.Open(frame, recvNonce, sealedFrame): exactly the sealed bytes of a frame that was sealed with recvNonce
 Opens(s, g) == /\ Len(g) = 1 /\ g[1].k = "f" /\ g[1].a = 0 /\ g[1].b = SealedSize /\ g[1].fl = {}
-               /\ g[1].i = s.rn + 1
+               /\ s.sent[g[1].i].nonce = s.rn
 
 AddRange(dl, off, k) == IF k = 0 THEN dl
                         ELSE IF dl # <<>> /\ dl[Len(dl)].off + dl[Len(dl)].len = off
@@ -279,6 +305,15 @@ ReadOp(s, n) ==
   ELSE \* closed pipe: EOF / unexpected EOF, whatever was left is consumed
        [st |-> [s EXCEPT !.wire = <<>>, !.errs = @ + 1], res |-> <<"err", 0, 0>>]
 
+(* FAULT OF THE UNDERLYING CONNECTION on the reader's side.  Read has to go to the wire, the underlying read hands  *)
+(* over c < 1044 bytes and then returns a (transient) error; the application reads again later.  The code reads    *)
+(* into a scratch buffer (io.ReadFull into a pooled slice) and returns the error: the c bytes are gone, recvNonce   *)
+(* stays.  For c > 0 every later frame is read out of step and fails to open -- an error, never wrong data.         *)
+ReadFaultEnabled(s, c) == s.rb.len = 0 /\ c < SealedSize /\ WireBytes(s.wire) >= c
+ReadFaultOp(s, c) == [st  |-> [s EXCEPT !.wire = Take(s.wire, c).rest, !.errs = @ + 1, !.rfaults = @ + 1,
+                                        !.lossy = (@ \/ c > 0)],
+                      res |-> <<"err", 0, 0>>]
+
 \* --- the properties ------------------------------------------------------------------------------
 RECURSIVE SumLen(_, _)
 SumLen(fs, n) == IF n = 0 THEN 0 ELSE fs[n].len + SumLen(fs, n - 1)
@@ -289,10 +324,14 @@ DeliveredIsPrefixOfSent(s) == s.dl = <<>> \/ (Len(s.dl) = 1 /\ s.dl[1].off = 0 /
 \* what has been handed out or is buffered is exactly the content of the first rn frames: nothing that
 \* was touched, re-ordered, replayed or foreign ever contributes a byte
 OnlyGenuineFramesOpen(s)   == DeliveredBytes(s) + s.rb.len = SumLen(s.sent, s.rn) /\ s.rn <= Len(s.sent)
-\* an untouched stream is delivered completely and without any error before the end of the pipe
-CleanIsComplete(s) == s.nm = 0 =>
-   /\ s.errs > 0 => (s.closed /\ s.wire = <<>>)
+\* an untouched stream (no manipulation, no fault that lost bytes) is delivered completely and without any error of
+\* the connection's own before the end of the pipe -- also when a write "failed" after all bytes were out
+CleanIsComplete(s) == (s.nm = 0 /\ ~s.lossy) =>
+   /\ s.errs > s.rfaults => (s.closed /\ s.wire = <<>>)
    /\ (s.wire = <<>> /\ s.rb.len = 0) => DeliveredBytes(s) = s.total
+\* the sender never seals two frames with the same nonce, whatever the underlying writes reported
+NoNonceReuse(s) == /\ \A i, j \in 1..Len(s.sent) : i # j => s.sent[i].nonce # s.sent[j].nonce
+                   /\ \A i \in 1..Len(s.sent) : s.sent[i].nonce < s.sn
 \* the reader runs into an error as soon as it reaches something that is not the next genuine frame
 \* (stated on ReadOp itself: MC_Stream checks it as an action property)
 NextIsGenuine(s) == /\ WireBytes(s.wire) >= SealedSize
